@@ -88,7 +88,13 @@ func newMachine(rt *rapid.T, o machineOpts) *machine {
 		if o.BatchGEConc && batch < conc {
 			batch, conc = conc, batch
 		}
-		sources = append(sources, &SourceCfg{Name: fmt.Sprintf("src%d", i+1), ChainID: uint64(1 + 9*i), Batch: batch, Conc: conc, Node: sim.NewNode(sim.NewChain())})
+		chainID := uint64(1 + 9*i)
+		if i > 0 && rapid.Bool().Draw(rt, "samechainid") {
+			// two providers of one chain (live + backfill): same chain id, different names and nodes
+			chainID = sources[0].ChainID
+			m.label("same-chain-id")
+		}
+		sources = append(sources, &SourceCfg{Name: fmt.Sprintf("src%d", i+1), ChainID: chainID, Batch: batch, Conc: conc, Node: sim.NewNode(sim.NewChain())})
 		switch {
 		case batch < conc:
 			m.label("batch<conc")
